@@ -37,8 +37,8 @@ Module Names.
 Import Coq.Strings.String.
 (* OBLIGATION *)
 Theorem translated_functions :
-  L.translated = ["Add"; "Clear"; "Contains"; "Difference"; "Empty"; "Intersection"; "New"; "Remove"; "Size"; "Union"; "Values"]%string
-  /\ L.skipped = ["String"]%string /\ L.not_selected = [].
+  L.translated = ["Add"; "All"; "Any"; "Clear"; "Contains"; "Difference"; "Empty"; "Find"; "Intersection"; "Map"; "New"; "Remove"; "Select"; "Size"; "Union"; "Values"]%string
+  /\ L.skipped = ["Each"; "String"]%string /\ L.not_selected = [].
 Proof. repeat split. Qed.
 Print Assumptions translated_functions.
 End Names.
